@@ -123,21 +123,177 @@ pub fn run(ctx: &Ctx) -> i32 {
             acc.sample(format!("{k}"), json!({"name": s.name, "class": s.class, "stack_flag": stack, "check": check.as_ref().map(|c| c.status), "compile": compile.status, "run": run.status}));
         }
     });
-    let acc = Acc::merge_all(parts);
+    let mut acc = Acc::merge_all(parts);
+
+    // Part B: every re-check of `lace watch` is equivalent to a fresh `lace check`.
+    // One real `lace watch` process per sequence of file contents; after each save the verdict of
+    // the (last) re-check is compared with `lace check` on the same content. An event that is not
+    // observed within the time limit is inconclusive, never a violation.
+    let wsrc: [(&str, &str); 6] = [
+        ("valid-a", "start add r0 r0 #1\nloop brp loop\ndata .fill x10\nhalt\n"),
+        ("undefined-after-labels", "start add r0 r0 #1\nloop brz nowhere\ndata .fill x10\n"),
+        ("valid-b-same-labels", "data .fill x5\nstart ld r0 data\nloop halt\n"),
+        ("uses-undefined-data", "ld r0 data\nlea r1 start\nhalt\n"),
+        ("lexer-error", "start add r0 r0 #1\n.bogus\n"),
+        ("emission-error", "start br far\n.blkw x200\nfar halt\n"),
+    ];
+    let k = wsrc.len();
+    let max_len = ctx.tier.pick(2, 3);
+    let mut seqs: Vec<Vec<usize>> = Vec::new();
+    for len in 1..=max_len {
+        for idx in 0..crate::util::pow(k, len) {
+            seqs.push(crate::util::seq(idx, k, len));
+        }
+    }
+    // verdicts of `lace check` per content
+    let check_ok: Vec<bool> = wsrc.iter().enumerate().map(|(i, (_, t))| {
+        let f = format!("wcheck{i}.asm");
+        lace.write(&f, t.as_bytes());
+        lace.run(&["check", &f], b"").status == 0
+    }).collect();
+    let parts = pooled(None, seqs.len(), 1, Acc::new, |acc, si| {
+        let seq = &seqs[si];
+        acc.eval("watch-sequences");
+        match watch_sequence(&lace, si, seq, &wsrc) {
+            None => acc.skip("watch event not observed in time (inconclusive)"),
+            Some(verdicts) => {
+                for (step, ok) in verdicts.iter().enumerate() {
+                    let want = check_ok[seq[step]];
+                    if *ok != want {
+                        let prev = if step > 0 { wsrc[seq[step - 1]].0 } else { "initial" };
+                        acc.violation(format!("C07/watch-recheck-differs-from-check/{}/after/{}", wsrc[seq[step]].0, prev), format!("`lace watch` re-check of {} reported {} but `lace check` reports {} (saves so far: {:?})", wsrc[seq[step]].0, if *ok { "success" } else { "an error" }, if want { "success" } else { "an error" }, seq[..=step].iter().map(|i| wsrc[*i].0).collect::<Vec<_>>()), json!({"watch": true, "sequence": seq, "names": seq.iter().map(|i| wsrc[*i].0).collect::<Vec<_>>(), "contents": seq.iter().map(|i| wsrc[*i].1).collect::<Vec<_>>()}));
+                        return;
+                    }
+                }
+                acc.nontrivial();
+                acc.gate("watch-rechecks-observed");
+                acc.outcome(format!("watch/len{}/last-{}", seq.len(), if check_ok[*seq.last().unwrap()] { "ok" } else { "error" }));
+            }
+        }
+    });
+    for p in parts {
+        acc.merge(p);
+    }
     finish(
         ctx,
         acc,
         Level { category: "model_checking", bfs: None },
-        "exhaustive configuration enumeration against the real binary: every source of a 140-source corpus (valid seeds; lexer / parser / backpatch errors; for each of the 8 PC-relative kinds an out-of-range label reference one beyond the field limit, forwards and backwards, at every statement position 0..4, and the in-range neighbour; sources using push / pop / call / rets) x feature setting {none, -f stack} x {check, compile, run}. Each run is classified success / diagnostic / crash; a crash is a violation; check success <=> compile success; compile success <=> run gets past assembling. non-trivial = (source, flag) pairs on which the three commands agree",
+        "exhaustive configuration enumeration against the real binary: every source of a 140-source corpus (valid seeds; lexer / parser / backpatch errors; for each of the 8 PC-relative kinds an out-of-range label reference one beyond the field limit, forwards and backwards, at every statement position 0..4, and the in-range neighbour; sources using push / pop / call / rets) x feature setting {none, -f stack} x {check, compile, run}. Each run is classified success / diagnostic / crash; a crash is a violation; check success <=> compile success; compile success <=> run gets past assembling. Part B drives the real `lace watch`: every sequence of up to 2 (thorough 3) saves over 6 file contents (valid; undefined label after labels were recorded; valid with the same label names elsewhere; using labels it does not define; lexer error; emission-only error), and after each save the verdict of the re-check must equal `lace check` on that content (an unobserved event is inconclusive). non-trivial = (source, flag) pairs on which the three commands agree + watch sequences whose every re-check agreed",
         true,
         &["all-accept", "all-reject", "emission-only-error-rejected-by-all"],
-        &["`lace watch` re-checks run the same code path as `lace check`; its event timing is outside the claim"],
+        &["`lace watch` is driven through the file system; inotify event timing is outside the claim: unobserved re-checks are counted as inconclusive"],
         json!({"check_accepts_feature_flag": check_has_flag, "sources": srcs.len()}),
     )
 }
 
+/// Run `lace watch` on a file, save each content of `seq` in turn, return the verdict (true =
+/// success) of the last re-check after each save; `None` if an event was not observed.
+fn watch_sequence(lace: &Lace, id: usize, seq: &[usize], wsrc: &[(&str, &str)]) -> Option<Vec<bool>> {
+    use std::io::Read;
+    use std::sync::{Arc, Mutex};
+    use std::time::{Duration, Instant};
+    let dir = lace.cwd.join(format!("watch{id}"));
+    let _ = std::fs::create_dir_all(&dir);
+    let file = dir.join("w.asm");
+    std::fs::write(&file, "halt\n").ok()?;
+    let mut child = std::process::Command::new(&lace.bin)
+        .args(["watch", "w.asm"])
+        .current_dir(&dir)
+        .env_clear()
+        .env("NO_COLOR", "1")
+        .env("HOME", &dir)
+        .stdin(std::process::Stdio::null())
+        .stdout(std::process::Stdio::piped())
+        .stderr(std::process::Stdio::null())
+        .spawn()
+        .ok()?;
+    let buf: Arc<Mutex<Vec<u8>>> = Arc::new(Mutex::new(Vec::new()));
+    let mut out = child.stdout.take()?;
+    let b2 = buf.clone();
+    let reader = std::thread::spawn(move || {
+        let mut chunk = [0u8; 4096];
+        while let Ok(n) = out.read(&mut chunk) {
+            if n == 0 {
+                break;
+            }
+            b2.lock().unwrap().extend_from_slice(&chunk[..n]);
+        }
+    });
+    let text = |b: &Arc<Mutex<Vec<u8>>>| String::from_utf8_lossy(&b.lock().unwrap()).into_owned();
+    // wait for the watcher to be up
+    let start = Instant::now();
+    while !text(&buf).contains("CTRL+C") && start.elapsed() < Duration::from_secs(5) {
+        std::thread::sleep(Duration::from_millis(20));
+    }
+    std::thread::sleep(Duration::from_millis(300));
+    let mut verdicts = Vec::new();
+    let mut ok_all = true;
+    for s in seq {
+        let before = text(&buf).len();
+        if std::fs::write(&file, wsrc[*s].1).is_err() {
+            ok_all = false;
+            break;
+        }
+        // wait for a re-check to appear and for the output to go quiet
+        let t0 = Instant::now();
+        let mut last_len = before;
+        let mut quiet_since = Instant::now();
+        let mut seen = false;
+        loop {
+            std::thread::sleep(Duration::from_millis(50));
+            let now = text(&buf);
+            if now.len() != last_len {
+                last_len = now.len();
+                quiet_since = Instant::now();
+            }
+            let new = &now[before.min(now.len())..];
+            let complete = new.contains("Re-checking") && (new.contains("Success") || new.contains("Error") || new.contains('×'));
+            if complete && quiet_since.elapsed() > Duration::from_millis(900) {
+                seen = true;
+                break;
+            }
+            if t0.elapsed() > Duration::from_secs(8) {
+                break;
+            }
+        }
+        if !seen {
+            ok_all = false;
+            break;
+        }
+        let now = text(&buf);
+        let new = &now[before.min(now.len())..];
+        // the last re-check of this save decides
+        let last = new.rfind("Re-checking").map(|p| &new[p..]).unwrap_or(new);
+        verdicts.push(last.contains("Success"));
+    }
+    let _ = child.kill();
+    let _ = child.wait();
+    let _ = reader.join();
+    let _ = std::fs::remove_dir_all(&dir);
+    if ok_all {
+        Some(verdicts)
+    } else {
+        None
+    }
+}
+
 pub fn replay(ctx: &Ctx, case: &Value) -> Option<Option<String>> {
     let lace = Lace::new(&ctx.lace_bin, &ctx.scratch);
+    if case["watch"].as_bool() == Some(true) {
+        let contents: Vec<String> = case["contents"].as_array()?.iter().map(|v| v.as_str().unwrap().to_string()).collect();
+        let names: Vec<String> = case["names"].as_array()?.iter().map(|v| v.as_str().unwrap().to_string()).collect();
+        let pairs: Vec<(&str, &str)> = names.iter().zip(contents.iter()).map(|(a, b)| (a.as_str(), b.as_str())).collect();
+        let seq: Vec<usize> = (0..pairs.len()).collect();
+        let verdicts = watch_sequence(&lace, 9999, &seq, &pairs);
+        let checks: Vec<bool> = contents.iter().map(|t| {
+            lace.write("rc.asm", t.as_bytes());
+            lace.run(&["check", "rc.asm"], b"").status == 0
+        }).collect();
+        return Some(match verdicts {
+            None => Some("watch events not observed (inconclusive)".into()),
+            Some(v) => if v != checks { Some(format!("watch verdicts {v:?}, check verdicts {checks:?}")) } else { None },
+        });
+    }
     let srcs = sources();
     let s = srcs.iter().find(|s| Some(s.name.as_str()) == case["name"].as_str())?;
     lace.write("r.asm", s.text.as_bytes());
